@@ -51,28 +51,28 @@ def leaf_set(e, negated):
 
 
 # -- strategies -----------------------------------------------------------------------------------
-BASES = list('\\]^[-/$.()|?*+{}azAZ09_ ~!') + ['\x00', 'é', '٣', '\U0001F600']
+BASES = list('\\]^[-/$.()|?*+{}azAZ09_ ~!') + ['\x00', '\x7f', 'é', 'é', 'Ā', '٣', 'Ω', 'א', '한', '\uffff', '\U0001F600', '\U0010fff0']
 
 
-def near_range():
+def near_range(bases=BASES):
     """Ranges whose end-points are drawn close to a small set of bases, so that they overlap / touch / nest."""
     def mk(t):
         base, off, ln = t
         lo = max(0, min(0x10FFFE, ord(base) + off))
         hi = min(0x10FFFF, lo + ln)
         return (chr(lo), chr(hi))
-    return st.tuples(st.sampled_from(BASES), st.integers(-4, 4), st.integers(1, 12)).map(mk)
+    return st.tuples(st.sampled_from(bases), st.integers(-4, 4), st.integers(1, 12)).map(mk)
 
 
-def near_char():
-    return st.tuples(st.sampled_from(BASES), st.integers(-3, 3)).map(lambda t: chr(max(0, min(0x10FFFF, ord(t[0]) + t[1]))))
+def near_char(bases=BASES):
+    return st.tuples(st.sampled_from(bases), st.integers(-3, 3)).map(lambda t: chr(max(0, min(0x10FFFF, ord(t[0]) + t[1]))))
 
 
-def leaf_strategy(invalid=False):
-    ch = st.one_of(near_char(), near_char(), c06.char_st())
+def leaf_strategy(invalid=False, bases=BASES):
+    ch = st.one_of(near_char(bases), near_char(bases), c06.char_st())
     arg = st.one_of(ch.map(lambda c: ['c', c]), ch.map(lambda c: ['c', c]), st.sampled_from(sorted(cs.TOKENS)).map(lambda t: ['t', t]))
     frm = st.lists(arg, min_size=1, max_size=5)
-    rng = near_range()
+    rng = near_range(bases)
     named = st.sampled_from(['Any', 'AnyLetter', 'AnyButLetter', 'AnyLowercaseLetter', 'AnyButLowercaseLetter', 'AnyUppercaseLetter',
                              'AnyButUppercaseLetter', 'AnyDigit', 'AnyButDigit', 'AnyPunctuation', 'AnyButPunctuation',
                              'AnyWhitespace', 'AnyButWhitespace', 'AnyGermanLetter', 'AnyButGermanLetter', 'AnyGreekLetter',
@@ -90,8 +90,15 @@ def leaf_strategy(invalid=False):
 
 
 def expr_strategy(max_leaves=6, invalid=False):
-    leaf = leaf_strategy(invalid)
-    ch = st.one_of(near_char(), c06.char_st())
+    """Half of the expressions draw all their ranges/characters around ONE base code point (so that operands overlap,
+    touch and nest, also above U+007F); the other half mix bases."""
+    clustered = st.sampled_from(BASES).flatmap(lambda b: _expr_strategy(max_leaves, invalid, [b]))
+    return st.one_of(clustered, _expr_strategy(max_leaves, invalid, BASES))
+
+
+def _expr_strategy(max_leaves, invalid, bases):
+    leaf = leaf_strategy(invalid, bases)
+    ch = st.one_of(near_char(bases), near_char(bases), c06.char_st())
     scalar = st.one_of(ch.map(lambda c: ['c', c]), ch.map(lambda c: ['c', c]),
                        st.sampled_from(sorted(cs.TOKENS)).map(lambda t: ['t', t]))
     if invalid:
